@@ -4,6 +4,8 @@ import PegVerif.Proofs.DiagLemmas
      * `firstPass_dup_none` : no duplicate error  ⇔  the rule names are pairwise different
      * `stub_iff`          : the rules with body `nil` that `link` appends are exactly the names that
                              are mentioned somewhere and not defined (plus `PegText` for a capture)
+     * `referenced_iff`    : the names `link` records in `t.referenced` are exactly the names that are
+                             mentioned somewhere
      * every other rule of the linked grammar has a non-`nil` body.
 -/
 namespace PegVerif
@@ -128,6 +130,13 @@ theorem Eff.congr {st st' : LinkSt} {P Q : String → Prop} (h : ∀ n, P n ↔ 
   rw [h n] at this
   exact this
 
+/-- `Eff` only looks at `defined` and `added` -/
+theorem Eff.congr_left {st st1 st' : LinkSt} {P : String → Prop} (hd : st1.defined = st.defined)
+    (ha : st1.added = st.added) (g : Eff st1 st' P) : Eff st st' P := by
+  intro n hn
+  have := g n hn
+  simpa only [Stub, hd, ha] using this
+
 def wantsE (e : Expr) (n : String) : Prop := n ∈ refsE e ∨ (n = "PegText" ∧ hasPushE e = true)
 def wantsL (es : List Expr) (n : String) : Prop := n ∈ refsL es ∨ (n = "PegText" ∧ hasPushL es = true)
 
@@ -186,7 +195,7 @@ mutual
           · exact ⟨r, Or.inl hr, hb, hnm⟩
           · simp at h2
     | .name a, st, _ => by
-      have := eff_stub st a
+      have := (eff_stub { st with referenced := a :: st.referenced } a).congr_left (st := st) rfl rfl
       refine Eff.congr (P := fun n => n = a) ?_ ?_
       · intro n; simp [wantsE, refsE, hasPushE]
       · simp only [linkE]
@@ -296,7 +305,7 @@ theorem linkRules_names : ∀ (rs : List Rule) (st : LinkSt),
 /-- the state `link` starts from -/
 def linkSt0 (rules : List Rule) : LinkSt :=
   { rulesCount := rules.length + 1, nAct := 0, defined := (firstPass rules).1.map (·.name), added := [],
-    actions := [] }
+    actions := [], referenced := [] }
 
 theorem linkGrammar_rules (rules : List Rule) :
     (linkGrammar rules).G.rules =
@@ -305,6 +314,100 @@ theorem linkGrammar_rules (rules : List Rule) :
 
 theorem linkGrammar_dup (rules : List Rule) : (linkGrammar rules).dup = (firstPass rules).2 := by
   simp [linkGrammar]
+
+theorem linkGrammar_referenced (rules : List Rule) :
+    (linkGrammar rules).referenced = (linkRules (firstPass rules).1 (linkSt0 rules)).2.referenced := by
+  simp [linkGrammar, linkSt0]
+
+/-! ### `t.referenced` -/
+
+mutual
+  /-- `link` records exactly the names of the `TypeName` nodes it meets -/
+  theorem linkE_ref : ∀ (e : Expr) (st : LinkSt), noInlE e = true →
+      ∀ n, n ∈ (linkE e st).2.referenced ↔ n ∈ st.referenced ∨ n ∈ refsE e
+    | .act code, st, _ => by intro n; simp [linkE, refsE]
+    | .name a, st, _ => by
+      intro n
+      simp only [linkE, refsE]
+      split <;> simp <;> grind
+    | .push e r, st, h => by
+      intro n
+      have := linkE_ref e (if st.defined.contains "PegText" then st else
+        { st with rulesCount := st.rulesCount + 1, defined := "PegText" :: st.defined,
+                  added := st.added ++ [{ name := "PegText", id := st.rulesCount, body := .nil }] })
+        (by simpa [noInlE] using h) n
+      have hst : (if st.defined.contains "PegText" then st else
+        { st with rulesCount := st.rulesCount + 1, defined := "PegText" :: st.defined,
+                  added := st.added ++ [{ name := "PegText", id := st.rulesCount, body := .nil }] }).referenced
+          = st.referenced := by split <;> rfl
+      rw [hst] at this
+      simpa [linkE, refsE] using this
+    | .ipush e r, st, h => by
+      intro n; simpa [linkE, refsE] using linkE_ref e st (by simpa [noInlE] using h) n
+    | .seq es, st, h => by
+      intro n; simpa [linkE, refsE] using linkL_ref es st (by simpa [noInlE] using h) n
+    | .alt es, st, h => by
+      intro n; simpa [linkE, refsE] using linkL_ref es st (by simpa [noInlE] using h) n
+    | .ualt ks es, st, h => by
+      intro n; simpa [linkE, refsE] using linkL_ref es st (by simpa [noInlE] using h) n
+    | .peekFor e, st, h => by
+      intro n; simpa [linkE, refsE] using linkE_ref e st (by simpa [noInlE] using h) n
+    | .peekNot e, st, h => by
+      intro n; simpa [linkE, refsE] using linkE_ref e st (by simpa [noInlE] using h) n
+    | .query e, st, h => by
+      intro n; simpa [linkE, refsE] using linkE_ref e st (by simpa [noInlE] using h) n
+    | .star e, st, h => by
+      intro n; simpa [linkE, refsE] using linkE_ref e st (by simpa [noInlE] using h) n
+    | .plus e, st, h => by
+      intro n; simpa [linkE, refsE] using linkE_ref e st (by simpa [noInlE] using h) n
+    | .inl a b, st, h => by simp [noInlE] at h
+    | .dot, st, _ => by intro n; simp [linkE, refsE]
+    | .chr c, st, _ => by intro n; simp [linkE, refsE]
+    | .rng lo hi, st, _ => by intro n; simp [linkE, refsE]
+    | .str s, st, _ => by intro n; simp [linkE, refsE]
+    | .pred c, st, _ => by intro n; simp [linkE, refsE]
+    | .stmt c, st, _ => by intro n; simp [linkE, refsE]
+    | .nil, st, _ => by intro n; simp [linkE, refsE]
+  theorem linkL_ref : ∀ (es : List Expr) (st : LinkSt), noInlL es = true →
+      ∀ n, n ∈ (linkL es st).2.referenced ↔ n ∈ st.referenced ∨ n ∈ refsL es
+    | [], st, _ => by intro n; simp [linkL, refsL]
+    | e :: es, st, h => by
+      intro n
+      have hh : noInlE e = true ∧ noInlL es = true := by simpa [noInlL] using h
+      have h1 := linkE_ref e st hh.1 n
+      have h2 := linkL_ref es (linkE e st).2 hh.2 n
+      simp only [linkL, refsL, List.mem_append]
+      rw [h2, h1]; grind
+end
+
+theorem linkRules_ref : ∀ (rs : List Rule) (st : LinkSt), (∀ r, r ∈ rs → noInlE r.body = true) →
+    ∀ n, n ∈ (linkRules rs st).2.referenced ↔ n ∈ st.referenced ∨ ∃ r, r ∈ rs ∧ n ∈ refsE r.body
+  | [], st, _ => by intro n; simp [linkRules]
+  | r :: rs, st, h => by
+    intro n
+    have h1 := linkE_ref r.body st (h r List.mem_cons_self) n
+    have h2 := linkRules_ref rs (linkE r.body st).2 (fun q hq => h q (List.mem_cons_of_mem _ hq)) n
+    simp only [linkRules, List.mem_cons, exists_eq_or_imp]
+    rw [h2, h1]; grind
+
+/-- `t.referenced` after `link`: the names that some rule of the grammar mentions. -/
+theorem referenced_iff {rules : List Rule} (hdup : (firstPass rules).2 = none)
+    (hinl : ∀ r, r ∈ rules → noInlE r.body = true) (n : String) :
+    n ∈ (linkGrammar rules).referenced ↔ ∃ r, r ∈ rules ∧ Mentions r.body n := by
+  have hw := firstPass_wrapped hdup
+  have hinl' : ∀ r, r ∈ (firstPass rules).1 → noInlE r.body = true := by
+    rw [hw]; intro r hr
+    obtain ⟨q, hq, rfl⟩ := List.mem_map.mp hr
+    simpa [wrapRule, noInlE] using hinl q hq
+  rw [linkGrammar_referenced, linkRules_ref _ _ hinl' n, hw]
+  constructor
+  · rintro (h | ⟨r, hr, hn⟩)
+    · simp [linkSt0] at h
+    · obtain ⟨q, hq, rfl⟩ := List.mem_map.mp hr
+      exact ⟨q, hq, (mentions_iff_refs _ _).mpr (by simpa [wrapRule, refsE] using hn)⟩
+  · rintro ⟨q, hq, hm⟩
+    exact Or.inr ⟨wrapRule q, List.mem_map.mpr ⟨q, hq, rfl⟩,
+      by simpa [wrapRule, refsE] using (mentions_iff_refs _ _).mp hm⟩
 
 /-- The stubs of the linked grammar: `n` is not the name of a rule, and is mentioned somewhere (or
     is `PegText` and the grammar has a capture). -/
